@@ -172,6 +172,50 @@ def killed_while_saving(ctx, proto, drv, el):
         ctx.traces_validated += 1
 
 
+def large_cache(ctx, proto, drv, el):
+    """a collector that has learnt ten thousand templates (a cache file of about 2 MB): saved, loaded, same answers"""
+    name = codec.P[proto]["name"]
+    u16 = lambda n: [(n >> 8) & 255, n & 255]
+    msgs, probes = [], []
+    for k in range(100):
+        exp = [10, 30, k, 1]
+        recs = []
+        for t in range(100):
+            recs += u16(300 + t) + u16(2) + u16(8) + u16(4) + u16(12) + u16(4)
+        if proto == "ipfix":
+            body = u16(2) + u16(4 + len(recs)) + recs
+            msgs.append({"exp": exp, "buf": [0, 10] + u16(16 + len(body)) + [0] * 12 + body})
+        else:
+            body = u16(0) + u16(4 + len(recs)) + recs
+            msgs.append({"exp": exp, "buf": [0, 9] + u16(100) + [0] * 16 + body})
+        if k % 9 == 0:
+            for t in (0, 57, 99):
+                rec = [k, t, 1, 2, 5, 6, 7, 8]
+                ds = u16(300 + t) + u16(12) + rec
+                probes.append({"exp": exp, "buf": ([0, 10] + u16(16 + len(ds)) + [0] * 12 + ds) if proto == "ipfix" else ([0, 9, 0, 1] + [0] * 16 + ds)})
+    d = ctx.subdir("c11large_" + proto)
+    path = os.path.join(d, "large.cache")
+    w = flowjobs.run_jobs(ctx, drv, codec.P[proto]["jobs"], [{"msgs": msgs + probes, "dump_to": path}], env={"VERIF_ELEMENTS_DIR": el}, tag="c11l1_" + proto)[0]
+    r = flowjobs.run_jobs(ctx, drv, codec.P[proto]["jobs"], [{"cache_file": path, "msgs": probes}], env={"VERIF_ELEMENTS_DIR": el}, tag="c11l2_" + proto)[0]
+    ctx.count([proto, "large-cache"])
+    size = os.path.getsize(path) if os.path.exists(path) else 0
+    ctx.extra.setdefault("large_cache_file_octets", {})[proto] = size
+    if "killed" in w or "killed" in r or w.get("dump") != "ok":
+        ctx.violation("%s: saving / loading a cache of 10000 templates failed (%s)" % (name, w.get("killed") or r.get("killed") or w.get("dump")), {"proto": proto}, key=proto + ":large:died")
+        return
+    before = [(x["st"], x["recs"]) for x in w["res"][len(msgs):]]
+    after = [(x["st"], x["recs"]) for x in r["res"]]
+    if any(st != "ok" or not recs for st, recs in before):
+        raise vlib.Infra("large-cache probes do not decode before the dump")
+    if before != after:
+        nbad = sum(1 for a, b in zip(before, after) if a != b)
+        ctx.violation("%s: a cache of 10000 templates (file of %d octets) saved with Dump and loaded with GetCache: %d of %d probed exporter / "
+                      "template pairs are decoded differently after the restart (%s)" % (name, size, nbad, len(before), after[0][0]),
+                      {"proto": proto, "file_octets": size}, key=proto + ":large:roundtrip")
+    else:
+        ctx.traces_validated += 1
+
+
 def check(ctx):
     thorough = ctx.tier == "thorough"
     ctx.rule = ("model: TLC explores Dump as marshal / truncate / partial writes / completion with a crash-and-restart and a structural "
@@ -322,4 +366,5 @@ def check(ctx):
                                   key=proto + ":overwrite")
                     break
         killed_while_saving(ctx, proto, drv, el)
+        large_cache(ctx, proto, drv, el)
         ctx.sample({"proto": proto, "file_octets": len(raw), "loads": len(loads), "example_mutation": json.dumps(mutate_doc(doc, "nullshard", ctx.rng))[:300]})
